@@ -488,3 +488,99 @@ def licm_sound(repo, res):
             got = [ast.unparse(a) for a in c.args]
             if len(got) < 5 or got[2] != "code.declarations" or got[0] != "code.name":
                 res.fail(key, f"fuse_loops rebuilds the section as Section({', '.join(got)}): declarations lost", m.line(c))
+
+
+@rule(
+    "INT-DIVISION",
+    ["C17", "C16", "C18"],
+    "LNodes `/` is true division (UFL's Division; Python's `/` in the numba backend): the quotient of two integer-typed operands, built "
+    "through the overloaded operators (also after the folding of ones and zeros has replaced a real-typed operand by an integer literal), is "
+    "typed REAL, and the C formatter does not print it as a quotient of two C integers (which truncates) - it casts an operand to the real "
+    "type; the numba formatter prints `/`",
+    min_instances=6,
+)
+def int_division(repo, res):
+    import re
+
+    classes = load_classes(repo)
+    m = repo.mod(LNODES)
+    FMC, FMN = "ffcx.codegeneration.C.formatter", "ffcx.codegeneration.numba.formatter"
+    it = Interp(repo, classes)
+    S = lambda n: it.construct("Symbol", [n, "DataType.INT"], {})  # noqa: E731
+    LI = lambda v: it.construct("LiteralInt", [v], {})  # noqa: E731
+    LF = lambda v: it.construct("LiteralFloat", [v], {})  # noqa: E731
+    div = m.func("LExpr.__div__") if "LExpr.__div__" in m.funcs else m.func("LExpr.__truediv__")
+    mul = m.func("LExpr.__mul__")
+    add = m.func("LExpr.__add__")
+    res.functions.update({div.key, mul.key, add.key})
+    samples = {
+        "i / j (integer symbols)": lambda: it.call_f(div, [S("i"), S("j")]),
+        "3 / 2 (integer literals)": lambda: it.call_f(div, [LI(3), LI(2)]),
+        "(1.0 * 3) / 2 (the real one is folded away)": lambda: it.call_f(div, [it.call_f(mul, [LF(1.0), LI(3)]), LI(2)]),
+        "1 / (0.0 + 2) (the real zero is folded away)": lambda: it.call_f(div, [LI(1), it.call_f(add, [LF(0.0), LI(2)])]),
+        "i / 2": lambda: it.call_f(div, [S("i"), LI(2)]),
+    }
+
+    def all_int(n):
+        """is the tree a quotient whose two operands are integer-typed (a C integer division if printed as `a / b`)?"""
+        return isinstance(n, Node) and n.cls == "Div" and n.f["lhs"].f.get("dtype") == "DataType.INT" and n.f["rhs"].f.get("dtype") == "DataType.INT"
+
+    for label, build in samples.items():
+        key = f"lnodes:true-division:{label}"
+        res.ob(key)
+        try:
+            t = build()
+        except Raised as e:
+            res.fail(key, f"building {label} raises ({e.what})", m.line(div.node))
+            continue
+        if not isinstance(t, Node):
+            raise AnalysisError(f"INT-DIVISION: {label} did not build a node")
+        if t.cls == "LiteralFloat":
+            continue  # folded to a real literal: fine
+        if t.f.get("dtype") == "DataType.INT":
+            res.fail(key, f"{label} builds {t!r} typed INT: a variable declared with this type, and C's `/` on two integers, truncate the quotient (3 / 2 is 1) while "
+                     "UFL's division and the numba backend (`/`) mean 1.5", m.line(div.node), props=("C17",))
+            continue
+        if not all_int(t):
+            continue
+        # the C formatter on this tree: interpreted handler, operands printed by name
+        for fm_, be in ((FMC, "C"),):
+            fmod = repo.mod(fm_)
+            cands = [f_ for f_ in fmod.funcs.values() if f_.node.name == "_" and re.search(r"\bBinOp\b", ast.unparse(f_.node.args))]
+            if len(cands) != 1:
+                raise AnalysisError(f"{be} formatter: BinOp handler not found")
+            h = cands[0]
+            res.functions.add(h.key)
+            for sname, rname in (("float64", "double"), ("float32", "float"), ("complex128", "double")):
+                k2 = f"{h.key}:true-division:{label}:{sname}"
+                res.ob(k2)
+                from ..npmodel import install as _inst
+
+                itf = _inst(Interp(repo, classes, primary=fm_))
+                itf.obj_classes = {"Formatter": fm_}
+
+                def show(a):
+                    if isinstance(a, Node) and a.cls in ("LiteralInt", "LiteralFloat"):
+                        return str(a.f["value"])
+                    if isinstance(a, Node) and a.cls == "Symbol":
+                        return a.f["name"]
+                    return "(expr)"
+                from ..npmodel import DT as _DT, REALOF as _RO
+                fmt = Node("Formatter", scalar_type=_DT(sname), real_type=_DT(_RO[sname]), __call__=_PyCallF(show))
+                try:
+                    text = str(itf.call_f(h, [fmt, t]))
+                except Raised as e:
+                    res.fail(k2, f"C formatter raises ({e.what}) on {label}", fmod.line(h.node), props=("C16",))
+                    continue
+                if not re.search(rf"\(\s*{rname}\s*\)", text) and not re.search(r"\d\.\d|\de[-+]?\d", text):
+                    res.fail(k2, f"{label} is printed as `{text}` in a {sname} kernel: both operands are C integers, so C truncates the quotient; LNodes division is true "
+                             f"division - an operand must be cast to `{rname}`", fmod.line(h.node), props=("C16", "C17", "C18"))
+    key = "numba:true-division"
+    res.ob(key)
+    nmod = repo.mod(FMN)
+    # the numba formatter prints the class's own operator: `/` is true division in Python
+    if classes["Div"].op != "/":
+        res.fail(key, f"Div.op is {classes['Div'].op!r}", m.rel, props=("C18",))
+
+
+from ..absint import _PyCall as _PyCallF  # noqa: E402
